@@ -9,7 +9,7 @@ func init() {
 			"and every transfer out of a pool, spread-reward or incentive account is of exactly the amount the bookkeeping just computed, to the position owner, from the matching account; the set of functions that send coins from pool-owned accounts is closed.",
 		NotCovered:  []string{"that accumulated dust over a history covers every claim (magnitude argument over histories)", "lock-bound positions", "negative interval accumulator values"},
 		Assumptions: []string{"rounding classes of osmomath as proved by C12", "bank keeper SendCoins moves exactly the given coins or fails"},
-		MinObl:      66,
+		MinObl:      72,
 		Run:         runC01,
 	})
 }
